@@ -669,3 +669,70 @@ func Sleep(d time.Duration) {
 	_ = d
 	Yield("time.Sleep")
 }
+
+// Timer stands in for time.Timer in instrumented code. Time is not modelled: a timer that is armed
+// may fire at any scheduling point from then on (its firing is a thread of its own, so the explorer
+// places it like any other thread: by default when nothing else can run, earlier at the price of a
+// preemption), and it always fires before an execution can become quiescent. That is sound for
+// properties that do not speak about durations: a real timeout guarantees no upper bound on what
+// else happens first, and none of the oracles measures time.
+type Timer struct {
+	C      <-chan time.Time
+	c      chan time.Time
+	f      func()
+	gen    int
+	active bool
+}
+
+func (t *Timer) arm() {
+	t.gen++
+	g := t.gen
+	t.active = true
+	GoNamed("timer", func() {
+		Yield("timer fires")
+		if t.gen != g || !t.active {
+			return
+		}
+		t.active = false
+		if t.f != nil {
+			t.f()
+		} else if Len(t.c) == 0 {
+			Send(t.c, time.Time{})
+		}
+	})
+}
+
+// NewTimer replaces time.NewTimer.
+func NewTimer(d time.Duration) *Timer {
+	_ = d
+	t := &Timer{c: make(chan time.Time, 1)}
+	t.C = t.c
+	t.arm()
+	return t
+}
+
+// After replaces time.After.
+func After(d time.Duration) <-chan time.Time { return NewTimer(d).C }
+
+// AfterFunc replaces time.AfterFunc.
+func AfterFunc(d time.Duration, f func()) *Timer {
+	_ = d
+	t := &Timer{f: f}
+	t.arm()
+	return t
+}
+
+// Stop prevents the timer from firing; it reports whether it did.
+func (t *Timer) Stop() bool {
+	Yield("timer stop")
+	was := t.active
+	t.active = false
+	return was
+}
+
+// Reset re-arms the timer.
+func (t *Timer) Reset(d time.Duration) bool {
+	was := t.Stop()
+	t.arm()
+	return was
+}
